@@ -122,6 +122,25 @@ class VLoop(asyncio.BaseEventLoop):
     def advance(self, dt: float) -> None:
         self.run_until(self._now + dt)
 
+    def shutdown(self) -> None:
+        """Cancel what is left and close the loop (an unclosed loop is repr()-ed from __del__, which is
+        very expensive under the tracer)."""
+        try:
+            import asyncio as _a
+
+            for t in list(_a.all_tasks(self)):
+                if not t.done():
+                    t.cancel()
+            self.run_until(self._now)
+        except BaseException:  # noqa: BLE001
+            pass
+        try:
+            self._ready.clear()
+            self._scheduled.clear()
+            self.close()
+        except BaseException:  # noqa: BLE001
+            pass
+
     def pending_timers(self) -> int:
         return sum(1 for h in self._scheduled if not h._cancelled)
 
@@ -184,6 +203,7 @@ class FakeTransport(asyncio.Transport):
         self.write_fail_at: Optional[int] = None
         self.reading_paused = False
         self.writing_paused = False
+        self.held: List[bytes] = []
         if server is not None:
             server._attach()
         loop.call_soon(protocol.connection_made, self)
@@ -210,6 +230,10 @@ class FakeTransport(asyncio.Transport):
             self._fatal(BrokenPipeError("injected write failure"))
             return
         d = native_bytes(data)
+        if self.writing_paused:
+            # accepted into the transport's buffer, but the peer receives nothing until it reads again
+            self.held.append(d)
+            return
         self.writes.append((self.loop.time(), len(d)))
         self.out.add(d)
 
@@ -300,6 +324,10 @@ class FakeTransport(asyncio.Transport):
     def peer_resumes_reading(self) -> None:
         if self.writing_paused and not self.lost:
             self.writing_paused = False
+            held, self.held = self.held, []
+            for d in held:
+                self.writes.append((self.loop.time(), len(d)))
+                self.out.add(d)
             self.loop.call_soon(self.protocol.resume_writing)
 
 
